@@ -239,7 +239,7 @@ SUBS = [
         "saddle_point", check, strategy=_cases, quick=320, thorough=6000, shards=16, shrink_quick=False,
         max_skip_frac=0.2,
         floors={
-            "completed": 0.8, "nt": 0.3, "lp_on": 0.25, "lp_off": 0.25, "ratio<1": 0.1, "early_stop": 0.08,
+            "completed": 0.8, "nt": 0.2, "lp_on": 0.25, "lp_off": 0.25, "ratio<1": 0.1, "early_stop": 0.08,
             "m:DemographicParity": 0.08, "m:TruePositiveRateParity": 0.08, "m:FalsePositiveRateParity": 0.08,
             "m:EqualizedOdds": 0.08, "m:ErrorRateParity": 0.08, "bound:default": 0.15, "bound:diff": 0.15,
             "groups3": 0.2,
